@@ -6,6 +6,46 @@ from pyvc.runner import Bounded
 from pyvc.symexec import RaiseSig, exc_class
 from pyvc.values import SBool, SExc, SStr, SStub
 
+from pyvc.replay import py_replay  # noqa: E402
+
+_M = """
+from passlib.totp import TOTP
+from passlib import exc as E
+def spec(t, tok, time, window, skew, last, period):
+    if window < 0: return ('ValueError',)
+    lo = (time + skew - window) // period; hi = (time + skew + window) // period
+    start = max(lo, -1 if last is None else last, 0)
+    for c in range(start, hi + 1):
+        if t.generate(c * period).token == tok:
+            if last is not None and c == last: return ('used', (last + 1) * period)
+            return ('ok', c)
+    return ('invalid',)
+def run(t, tok, time, window, skew, last):
+    try:
+        m = t.match(tok, time, window=window, skew=skew, last_counter=last)
+        return ('ok', m.counter)
+    except E.UsedTokenError as e: return ('used', e.expire_time)
+    except E.InvalidTokenError: return ('invalid',)
+    except E.MalformedTokenError: return ('malformed',)
+    except ValueError: return ('ValueError',)
+"""
+
+
+def _search_match(seed):
+    out = []
+    for period in (1, 2, 3, 30, 60):
+        for window in (0, 1, 2, 30, 45):
+            for skew in (-2, 0, 1):
+                for time in (0, 1, 5, 44, 59, 60, 61, 100):
+                    for last in (None, 0, 1, 2):
+                        for off in (-1, 0, 1):
+                            out.append({"period": period, "window": window, "skew": skew, "time": time, "last_counter": last, "token_counter": max(0, (time + skew) // period + off)})
+    return out[:: max(1, len(out) // 1500)]
+
+
+REPLAY_MATCH = py_replay(_M, "t = TOTP(key='GEZDGNBVGY3TQOJQGEZDGNBVGY3TQOJQ', period=V['period']); tok = t.generate(V['token_counter'] * V['period']).token; r = (run(t, tok, V['time'], V['window'], V['skew'], V['last_counter']), spec(t, tok, V['time'], V['window'], V['skew'], V['last_counter'], V['period']))",
+                         "exc is None and r[0] == r[1]", {"period": 30, "window": 30, "skew": 0, "time": 59, "last_counter": None, "token_counter": 2}, alts={"last_counter": {0: None}}, search=_search_match)
+
 LEVEL = "proof"
 T = "passlib/totp.py"
 EXPLANATION = (
@@ -66,6 +106,7 @@ find_match = Contract(
         invariant=["0 <= start <= counter <= end", "forall_int(start, counter, lambda c: generate(c) != token)", "start == max(old_start, 0)", "token == self.normalize_token(old_token)", "generate is self._generate"],
         decreases="end - counter")},
     specs=SPECS, globals=GLOBALS,
+    replay=REPLAY_MATCH,
     descr="all int start/end, any token, any counter->token map",
 )
 
@@ -110,6 +151,7 @@ match = Contract(
         ("cache_time == expire_time + window", "result.cache_time == (result.counter + 1) * self.period + window"),
     ],
     specs=SPECS, globals=GLOBALS,
+    replay=REPLAY_MATCH,
     descr="all int time/skew/window/period >= 1/last_counter in {None} u Z",
 )
 
